@@ -779,7 +779,7 @@ func (m *Nitro) Visitor(snap *Snapshot, callb VisitorCallback, shards int, concu
 			if tmpIter.Valid() {
 				prevItm := pivotItems[len(pivotItems)-1]
 				// Find bigger item than prev pivot
-				if prevItm == nil || m.insCmp(unsafe.Pointer(itm), unsafe.Pointer(prevItm)) > 0 {
+				if prevItm == nil || m.iterCmp(unsafe.Pointer(itm), unsafe.Pointer(prevItm)) > 0 {
 					pivotItems = append(pivotItems, itm)
 				}
 			}
@@ -813,7 +813,7 @@ func (m *Nitro) Visitor(snap *Snapshot, callb VisitorCallback, shards int, concu
 				}
 			loop:
 				for ; itr.Valid(); itr.Next() {
-					if endItem != nil && m.insCmp(itr.GetNode().Item(), unsafe.Pointer(endItem)) >= 0 {
+					if endItem != nil && m.iterCmp(itr.GetNode().Item(), unsafe.Pointer(endItem)) >= 0 {
 						break loop
 					}
 
